@@ -10,7 +10,7 @@ func init() {
 
 func runC17(c *Ctx) {
 	c.ruleConstruction("W1-conservation")
-	c.Min("W1-conservation", 5)
+	c.Min("W1-conservation", 4)
 	c.ruleLifecycle("W2-release-on-all-exits", map[string]bool{"acquire": true, "release-deferred": true, "puts-own-wrapper": true, "clear-before-put": true})
 	c.Min("W2-release-on-all-exits", 72)
 	c.ruleFreeLists("W3-W4-free-lists")
